@@ -177,6 +177,9 @@ class Program:
             native = importlib.import_module(package + '.' + m)
             self._load(m, path, native)
         for path in extra_files:
+            d = os.path.dirname(os.path.abspath(path))
+            if d not in sys.path:
+                sys.path.insert(0, d)
             name = os.path.splitext(os.path.basename(path))[0]
             spec = importlib.util.spec_from_file_location('pyvc_extra_' + name, path)
             native = importlib.util.module_from_spec(spec)
@@ -647,7 +650,9 @@ class Interp:
             return self.bm.seq_getitem(self, obj, key, False)
         if is_str(obj):
             if isinstance(key, PSlice):
-                if key.step is not None and key.step != 1:
+                if not self.bm.step_is_one(key.step):
+                    if isinstance(obj, str) and not is_z3(key.start) and not is_z3(key.stop) and not is_z3(key.step):
+                        return obj[key.start:key.stop:key.step]
                     raise Unsupported('str slice with step')
                 return sym.s_slice(obj, key.start, key.stop)
             if isinstance(key, EnumVal):
